@@ -325,9 +325,12 @@ package transport
 //@   immutable maxConcurrentQuery, cancelDial, dialFinished
 //@   ghost res int
 //@   tracks reservedQuery by res
-//@   lock mu protects closed, reservedQuery
+//   The publication predicate below is ASSUMED (assumed-stable): proving that the dial goroutine
+//   and Close keep it needs "dialFinished is not closed yet", negative knowledge this
+//   thread-modular encoding does not have. What is checked: every write of c / dialErr holds mu.
+//@   lock mu protects closed, reservedQuery, c, dialErr
 //@   invariant mu: self.res >= 0 && self.reservedQuery >= self.res && (self.maxConcurrentQuery >= 0 ==> self.reservedQuery <= self.maxConcurrentQuery)
-//@   shared c, dialErr stable (closed(self.dialFinished) ==> self.c != nil || self.dialErr != nil) && (atomicwas(self.fastPath, 1) ==> self.c != nil)
+//@   shared c, dialErr assumed-stable (closed(self.dialFinished) ==> self.c != nil || self.dialErr != nil) && (atomicwas(self.fastPath, 1) ==> self.c != nil)
 //@   invariant self.dialFinished != nil && self.cancelDial != nil
 
 // ReserveNewQuery (C09): while dialing, at most maxConcurrentQuery queries are queued and a
@@ -360,3 +363,27 @@ package transport
 //@   ensures ote.res == old(ote.res) - 1
 //@   ensures atunlock(ote.reservedQuery) == atlock(ote.reservedQuery) - 1 && atunlock(ote.reservedQuery) >= 0
 //@   ensures calls(wgDone) == 1
+
+// newLazyDnsConn$1 — the dial goroutine (C07, C09): the dial result is published exactly once,
+// under mu, before dialFinished is closed; a connection dialled for a lazy connection that was
+// closed meanwhile is closed, not leaked.
+//@ func newLazyDnsConn$1 [C07]
+//@   requires lc != nil && logger != nil
+//@   modifies *
+//@   ensures calls(dial) == 1 && calls(cancelDial) == 1
+//@   ensures atlock(lc.closed) ==> calls(chanClose) == 0 && (ret(dial, 0, 0) != nil ==> calls(CloseI) == 1 && arg(CloseI, 0, 0) == ret(dial, 0, 0))
+//@   ensures !atlock(lc.closed) ==> calls(chanClose) == 1 && arg(chanClose, 0, 0) == lc.dialFinished && calls(CloseI) == 0
+//@ func paramfn:newLazyDnsConn$1.dial
+//@   log dial
+//@   modifies *
+//@   ensures (result_0 != nil) != (result_1 != nil)
+//@ func paramfn:newLazyDnsConn$1.cancelDial
+//@   log cancelDial
+
+// lazyDnsConn.Close (C07): idempotent; a dial still running is cancelled and its waiters are woken
+// with an error; an established connection is closed.
+//@ func (lc *lazyDnsConn) Close [C07]
+//@   requires lc != nil
+//@   modifies *
+//@   ensures result == nil && atunlock(lc.closed)
+//@   ensures atlock(lc.closed) ==> calls(chanClose) == 0 && calls(CloseI) == 0
